@@ -24,7 +24,10 @@ for name, edits in SPECS:
                 print('%s: pattern occurs %d times in %s: %r' % (name, s.count(old), f, old[:60]))
                 sys.exit(1)
             open(p, 'w').write(s.replace(old, new))
-        out = subprocess.run(['diff', '-ruN', 'a', 'b'], cwd=tmp, stdout=subprocess.PIPE, text=True).stdout
+        out = ''
+        for f in files:
+            out += subprocess.run(['diff', '-u', '--label', 'a/' + f, '--label', 'b/' + f, os.path.join('a', f), os.path.join('b', f)],
+                                  cwd=tmp, stdout=subprocess.PIPE, text=True).stdout
         open(os.path.join(VERIF, 'mutants', name + '.patch'), 'w').write(out)
         print('wrote', name)
     finally:
